@@ -51,10 +51,7 @@ func RunPlan(args []string, opts GlobalOptions) error {
 			return err
 		}
 
-		workingIDs := make(map[string]*Task, len(graph.Tasks)+len(input.Tasks)+1)
-		for id, task := range graph.Tasks {
-			workingIDs[id] = task
-		}
+		workingIDs := takenIDs(graph)
 
 		epicTitle := *input.Title
 		epicBody := ""
